@@ -155,12 +155,15 @@ func (x *Explorer) capped() bool {
 func (x *Explorer) explore(prefix []int, depth int) { x.exploreExec(nil, prefix, depth) }
 
 func (x *Explorer) exploreExec(e *Exec, prefix []int, depth int) {
-	if x.capped() {
-		return
-	}
 	if e == nil {
+		if x.capped() {
+			return
+		}
 		e = Run(prefix, &x.Cfg, x.Body)
 	}
+	// an execution that has already been run (the root) is always evaluated,
+	// also when the budget is used up: a capped search explores less, it never
+	// skips the oracle of what it did run
 	if depth != 1 || x.NShards == 1 || true {
 		x.Execs++
 		x.Transitions += int64(len(e.Points))
